@@ -750,9 +750,8 @@ def batches(ctx):
     def oracle_colour(c, r):
         if "error" in r:
             return True, "layout raised: judged by the render batch"
-        for p, col in r["features"]:
-            if col != o_nearest_colour(c, p):
-                return False, f"object node {p} ends up with colour {col}, its nearest coloured ancestor-or-self gives {o_nearest_colour(c, p)}"
+        # the property speaks about what is DRAWN (the colour of every branch and loss marker); the `color` features
+        # layout.compute happens to write on the caller's object tree are compared with the model but are not judged
         for p, col in r["node_branches"] + r["pseudo"]:
             if col != (o_nearest_colour(c, p) or "000000"):
                 return False, f"branch of (or loss on the lineage of) object node {p} has colour {col}, expected {o_nearest_colour(c, p) or '000000'}"
